@@ -10,27 +10,27 @@ ALL = ["C%02d" % i for i in range(1, 21)]
 CLAIMED = {
     "C10": ("fault_enumeration",
             "exhaustive fault/interruption-point enumeration over all composites up to length 3 (4 thorough) on the real ChangeSet/History code",
-            "Every composite change enabled in a dictionary model of the tree (26 sub-change alphabet incl. a move into a missing folder and creations over existing targets, which the file system refuses so that the composite fails by itself, nested variants, three real refactoring change sets) is executed on the real implementation once per deviation: a fault at every mutating fs command and a stop() at every task-handle notification, during do, undo and redo; after each, the tree snapshot, the identity of the history lists and a fault-free retry are checked.",
+            "Every composite change enabled in a dictionary model of the tree (26 sub-change alphabet, also with a full undo list, incl. a move into a missing folder and creations over existing targets, which the file system refuses so that the composite fails by itself, nested variants, three real refactoring change sets) is executed on the real implementation once per deviation: a fault at every mutating fs command and a stop() at every task-handle notification, during do, undo and redo; after each, the tree snapshot, the identity of the history lists and a fault-free retry are checked.",
             "fault model: failing command raises and has no effect; one deviation per execution; rollback runs fault-free; bounded alphabet and length", "3/C10"),
     "C11": ("model_checking",
             "explicit-state exploration of all do/undo/redo/selective/drop histories to depth 4 (5-6 thorough) on the real History, against a dictionary reference model",
-            "A state is the event history reaching it; every enabled sequence of do (21 change shapes incl. a content change that switches LF to CRLF, an empty change set, a change in a sibling folder with a prefix name), undo, redo, undo(change=i), redo(change=i), undo(drop=True) for history limits {0,1,2,32} is replayed on a fresh real Project and its last step is compared with a reference model (tree, both lists, returned changes, limit, refusal on empty) and with the property's declarative oracle (base snapshot + remaining changes replayed).",
+            "A state is the event history reaching it; every enabled sequence of do (23 change shapes incl. a content change that switches LF to CRLF, an empty change set, a change in a sibling folder with a prefix name, change sets touching ignored files), undo, redo, undo(change=i), redo(change=i), undo(drop=True) for history limits {0,1,2,32} is replayed on a fresh real Project and its last step is compared with a reference model (tree, both lists, returned changes, limit, refusal on empty) and with the property's declarative oracle (base snapshot + remaining changes replayed).",
             "reference model and dependency closure written independently (dict + lists); bounded depth/alphabet; every transition is an implementation step, so traces_validated_against_impl = sequences explored", "3/C11"),
     "C18": ("fault_enumeration",
             "exhaustive crash-point enumeration: every program-order prefix (byte-granular) of the save's real system-call effect log, each reopened with the real code",
-            "For each history scenario the real Project.close()/sync() runs once under strace; the ordered effects on the rope folder (open/truncate, write, rename, unlink, tracked per inode) are the ground truth. Every prefix of that list, with every byte prefix of every write, is materialised and the project is reopened: opening, project.history, the object db and module analysis must not raise and history/objectdb must each equal the complete old or the complete new version (or be empty); two follow-up sessions on every crash state (one that changes the project, one that only analyses and saves) must leave a complete history too.",
+            "For each history scenario the real Project.close()/sync() runs once under strace; the ordered effects on the rope folder (open/truncate, write, rename, unlink, tracked per inode) are the ground truth. Every prefix of that list, with every byte prefix of every write, is materialised and the project is reopened: opening, project.history, the object db and module analysis must not raise and history/objectdb must each equal the complete old or the complete new version (or be empty); two follow-up sessions on every crash state (one that changes the project, one that only analyses and saves) must leave a complete history too; in addition the save is interrupted in-process by KeyboardInterrupt at every write call (unwinding death) and the project reopened.",
             "process-death crash model (program-order prefixes of what reached the OS); strace log is trusted and the harness exits 2 if replaying all effects does not reproduce the real final rope folder", "3/C18"),
     "C12": ("model_checking",
             "differential explicit-state exploration: every history to depth 3 (4 thorough) replayed on the real code with and without close/reopen at every position; exhaustive serializer round trip over all values up to a node bound",
-            "Every feasible sequence of 21 operations (incl. one path used as a file and later as a folder, an explicit sync()) is executed on the real implementation straight through and again with close()+reopen inserted at each position (thorough: each pair), then driven through undo-all/redo-all and selective undo/redo probes; the two runs must agree observation by observation (history lists with contents, tree after every probe step, stored object info across the reopen). All nested values with <=5 (6) nodes over a collision-prone atom alphabet are round-tripped through JSON text for both serializer versions with type-exact comparison.",
+            "Every feasible sequence of 22 operations (incl. one path used as a file and later as a folder, an explicit sync(), a change that touches only an ignored file) is executed on the real implementation straight through and again with close()+reopen inserted at each position (thorough: each pair), then driven through undo-all/redo-all and selective undo/redo probes; the two runs must agree observation by observation (history lists with contents, tree after every probe step, stored object info across the reopen). All nested values with <=5 (6) nodes over a collision-prone atom alphabet are round-tripped through JSON text for both serializer versions with type-exact comparison.",
             "differential oracle: the run without reopen is the reference; bounded depth and value size; time stamps not compared", "3/C12"),
     "C16": ("exploration",
             "bounded-exhaustive enumeration of file contents x newline convention x encoding declaration x edit, executed on the real File/ChangeContents/Rename code with independently computed expected bytes",
-            "All texts of <=2 (3) lines over 9 character-class atoms x {LF,CRLF,CR} x final newline x 10 encoding declarations x 3 cookie forms x 7 cookie placements (incl. after a first line of more than 300 characters) are written as raw bytes; through rope each is written back unchanged, edited line by line, renamed, undone, re-edited after its newline convention changed behind rope's back, rewritten with a text that declares another encoding (+undo), and written to a new file; one-line texts also through a file-system commands object without read(); every resulting byte string is compared with bytes computed from the line list.",
+            "All texts of <=2 (3) lines over 9 character-class atoms x {LF,CRLF,CR} x final newline x 10 encoding declarations x 3 cookie forms x 8 cookie placements (incl. after a first line of more than 300 characters or an empty one) are written as raw bytes; through rope each is written back unchanged, edited line by line, renamed, undone, re-edited after its newline convention changed behind rope's back, rewritten with a text that declares another encoding (+undo), and written to a new file; one-line texts also through a file-system commands object without read(); every resulting byte string is compared with bytes computed from the line list.",
             "expected bytes computed independently of rope's codec/newline code; mixed newlines and unencodable contents excluded by the property", "3/C16"),
     "C13": ("model_checking",
             "explicit-state exploration of mutation/external-edit/query histories to depth 3 (4-5 thorough) on one long-lived real Project, differential against a brand-new Project after every sequence",
-            "Every enabled sequence over 31 events (15 mutations through rope incl. moves across the default ignore pattern, 6 changes behind rope's back + validate(), 7 cache-warming queries incl. the scope names of a star-importing module) is replayed on a long-lived real Project with an observing AutoImport index; then files, python files, find_module, per-module source/names/scope name table/lookups/definition locations/inferred types and attribute sets, package contents, find_occurrences and the AutoImport index are compared with a brand-new Project (fresh index) on the same directory.",
+            "Every enabled sequence over 35 events (16 mutations through rope incl. moves across the default ignore pattern, 9 changes behind rope's back + validate() (incl. two edits of a package __init__), 8 cache-warming queries incl. the scope names of a star-importing module) is replayed on a long-lived real Project with an observing AutoImport index; then files, python files, find_module, per-module source/names/scope name table/lookups/definition locations/inferred types and attribute sets, package contents, find_occurrences and the AutoImport index are compared with a brand-new Project (fresh index) on the same directory.",
             "the fresh project is the reference; time stamps owned by a logical clock; AutoImport indexes filled with update_resource (no process pool); bounded depth and alphabet", "3/C13"),
     "C03": ("exploration",
             "bounded-exhaustive enumeration of (function body, region, options) with CPython execution before/after as the oracle",
@@ -38,11 +38,11 @@ CLAIMED = {
             "behaviour is compared on the enumerated inputs only; bounded body length and atom alphabet", "3/C03"),
     "C04": ("exploration",
             "bounded-exhaustive enumeration of (definition shape, call-site list, host, query point, options) with CPython execution before/after as the oracle",
-            "4 signatures x 5 body shapes x 3 hosts (defining module, `import`, `from import`) x every list of 1-2 (3) call sites (every positional/keyword/default passing shape x 3 argument forms x 4 contexts) x query at the definition or at each call site x remove/only_current are inlined with the real code, plus InlineVariable, InlineParameter and inline-method spaces and 288 cases where the inlined body depends on imports/globals of its module and the destination module already has similar imports (prefix-named module, alias, same from-import) or clashing names, functions with import statements of their own and positional-only parameters with defaults; every performed result is compiled and all modules are run before/after.",
+            "4 signatures x 5 body shapes x 3 hosts (defining module, `import`, `from import`) x every list of 1-2 (3) call sites (every positional/keyword/default passing shape x 4 argument forms x 6 contexts incl. a continuation line) x query at the definition or at each call site x remove/only_current are inlined with the real code, plus InlineVariable, InlineParameter and inline-method spaces and 288 cases where the inlined body depends on imports/globals of its module and the destination module already has similar imports (prefix-named module, alias, same from-import) or clashing names, functions with import statements of their own and positional-only parameters with defaults; every performed result is compiled and all modules are run before/after.",
             "behaviour = stdout + exception type of importing every module; bounded shapes", "3/C04"),
     "C06": ("exploration",
             "bounded-exhaustive enumeration of (signature, callable kind, call shapes, host, changer sequence); bodies print their locals and CPython runs before/after; expected output derived structurally",
-            "8 signature shapes (defaults, *args, **kw) x 5 callable kinds (function, method on a name, method on an attribute chain, classmethod, constructor) x 3 hosts x every valid call shape (positional/keyword/default/*seq/extra positional/extra keyword) at 1-2 sites x every single changer incl. permutations of a proper prefix (thorough: ordered pairs), with the def header on one line or wrapped one parameter per line, in modules that also contain `yield from` / `raise ... from` before the calls and imports after them, go through the real ChangeSignature; every function body prints its sorted locals and the result must equal the recorded output with the removed name dropped / the added name bound. IntroduceParameter: 5 function kinds x 7 signatures x 8 expression kinds x 4 body shapes x 3 new names, behaviour compared before/after.",
+            "8 signature shapes (defaults, *args, **kw) x 6 callable kinds (function, method on a name, method on an attribute chain, classmethod on the class and on an instance, constructor) x 3 hosts x every valid call shape (positional/keyword/default/*seq/extra positional/extra keyword) at 1-2 sites x every single changer incl. permutations of a proper prefix (thorough: ordered pairs), with the def header on one line or wrapped one parameter per line, in modules that also contain `yield from` / `raise ... from` before the calls and imports after them, go through the real ChangeSignature; every function body prints its sorted locals and the result must equal the recorded output with the removed name dropped / the added name bound. IntroduceParameter: 5 function kinds x 7 signatures x 8 expression kinds x 4 body shapes x 3 new names, behaviour compared before/after.",
             "argument values are constants; expected bindings derived from the recorded run; a request whose resulting signature is illegal must be refused", "3/C06"),
     "C07": ("exploration",
             "bounded-exhaustive enumeration of (import block, usage pattern, target location, action, preferences) with CPython execution of the module and of a star-importing client before/after, plus idempotence",
@@ -58,7 +58,7 @@ CLAIMED = {
             "behaviour = stdout + exception type of importing every module; bounded shapes", "3/C17"),
     "C01": ("exploration",
             "bounded-exhaustive enumeration of (program from scoping schemas, identifier token) with CPython execution and a symtable-validated reference binder as oracles",
-            "Every program of 14 single-module scoping schemas (incl. header expressions spanning several lines, decorator arguments, non-ASCII and soft-keyword receiver names, nonlocal through three nested functions) (full product of two-name menus) and 57 multi-module projects x every identifier token with a statically known in-project binding is renamed to a fresh name with the real Rename; the result must compile, every module must print the same, and the reference binder's token partition before/after must be in bijection.",
+            "Every program of 16 single-module scoping schemas (incl. header expressions spanning several lines, decorator arguments, non-ASCII and soft-keyword receiver names, nonlocal through three nested functions, comprehensions in a class body, a tab-indented class) and 59 multi-module projects (incl. two star imports exporting one name) (full product of two-name menus) and 57 multi-module projects x every identifier token with a statically known in-project binding is renamed to a fresh name with the real Rename; the result must compile, every module must print the same, and the reference binder's token partition before/after must be in bijection.",
             "reference binder validated against CPython's symtable on every program (exit 2 on disagreement); tokens it cannot bind statically are not judged; dunder names are not renamed", "3/C01"),
     "C02": ("exploration",
             "bounded-exhaustive enumeration of (program, binding class, query token) with a symtable-validated reference binder as the two-sided oracle",
@@ -66,23 +66,23 @@ CLAIMED = {
             "reference binder = language rules over ast + import transparency + statically known attributes/keyword arguments, validated against symtable per program; dynamic tokens are neither required nor forbidden", "3/C02"),
     "C15": ("exploration",
             "bounded-exhaustive enumeration of binding constructs x scope chains, rope's scopes/name tables/lookups compared with a reference binder that is validated against CPython's symtable on every program",
-            "67 binding atoms (incl. starred targets, walrus values, comprehensions in every statement position, multi-line statements, dedented comments) x 19 function/class nesting chains (depth 3, incl. @property/@staticmethod methods) x outer-binding variations (uniform and independent per level) x 10 parameter kinds; per program: scope tree with line extents, owned names per scope, lookup() of every read name from its scope, holding scope per physical body line (continuation lines included).",
+            "70 binding atoms (incl. starred targets, walrus values, comprehensions in every statement position, multi-line statements, dedented comments) x 19 function/class nesting chains (depth 3, incl. @property/@staticmethod methods) x outer-binding variations (uniform and independent per level) x 10 parameter kinds; per program: scope tree with line extents, owned names per scope, lookup() of every read name from its scope, holding scope per physical body line (continuation lines included) and by offset at every comprehension variable.",
             "binder vs symtable agreement is a precondition (HARNESS otherwise); lambda scopes not compared; PEP 709 inlining accounted for", "3/C15"),
     "C14": ("exploration",
             "bounded-exhaustive enumeration of texts (statement templates x literal/expression atoms, one and two statements) x every offset and line, compared with CPython's tokenize and ast",
-            "Texts from 20 statement templates x 53 atoms (all string prefixes and quote styles, escapes, f-strings with nesting, number spellings, unicode identifiers and receivers, soft keywords used as names, keywords glued to literals, continuations, bracketed line breaks, semicolons, tabs, form feed and the other str.splitlines separators in strings/comments/lines) are fed to simplify.ignored_regions/real_code, SourceLinesAdapter, logical_lines and Worder; every offset / line / identifier character is compared with the tokenizer's tokens, NEWLINE-delimited logical lines and the ast attribute chains.",
+            "Texts from 22 statement templates x 53 atoms (all string prefixes and quote styles, escapes, f-strings with nesting, number spellings, unicode identifiers and receivers, soft keywords used as names, keywords glued to literals, continuations, bracketed line breaks, semicolons, tabs, form feed and the other str.splitlines separators in strings/comments/lines) are fed to simplify.ignored_regions/real_code, SourceLinesAdapter, logical_lines and Worder; every offset / line / identifier character is compared with the tokenizer's tokens, NEWLINE-delimited logical lines and the ast attribute chains.",
             "tokenize/ast of CPython 3.12 are the reference; identifier tokens inside f-string fields not used for Worder checks", "3/C14"),
     "C08": ("exploration",
             "bounded-exhaustive enumeration of grammar constructs composed to depth 2 x layout deviations, with CPython's ast positions and re-parsing as oracles",
-            "83 expression atoms x 10 expression contexts, 28 simple statements x every atom, 28 compound statements x every simple statement as body, each with 0 or 1 of 13 layout deviations (incl. comment lines that quote the following code, form feed lines and strings containing line-separator characters), are annotated with get_patched_ast; checked per module: annotation succeeds, write_ast reproduces the text, every positioned node has a region, regions nest, region text equals the interpreter's segment up to redundant parentheses, region re-parses to the same node.",
+            "86 expression atoms x 10 expression contexts, 28 simple statements x every atom, 28 compound statements x every simple statement as body, each with 0 or 1 of 13 layout deviations (incl. comment lines that quote the following code, form feed lines and strings containing line-separator characters), are annotated with get_patched_ast; checked per module: annotation succeeds, write_ast reproduces the text, every positioned node has a region, regions nest, region text equals the interpreter's segment up to redundant parentheses, region re-parses to the same node.",
             "CPython 3.12 positions are the reference; regions may include redundant parentheses/blanks and a definition's decorators", "3/C08"),
     "C19": ("exploration",
             "bounded-exhaustive enumeration of (module, pattern abstracted from the module's own code, region, goal) against a reference AST matcher/transformer",
-            "For 6 modules (incl. runs of equal statements and comments quoting the code), every distinct expression and statement run is turned into patterns by abstracting every subset of <=2 sub-expressions into wildcards (shared wildcards for equal sub-trees); SimilarFinder.get_matches over the whole module and over every statement span must report exactly the reference matcher's instances with equal bindings, and restructure.replace / Restructure with 4 expression goals and a multi-line statement goal (one- and two-statement patterns, overlapping windows taken greedily) must parse to the reference AST transformation (goal == pattern leaves the tree unchanged).",
+            "For 9 modules (incl. runs of equal statements, comments quoting the code, semicolon-joined statements, a one-line if), plus the bare-wildcard pattern,, every distinct expression and statement run is turned into patterns by abstracting every subset of <=2 sub-expressions into wildcards (shared wildcards for equal sub-trees); SimilarFinder.get_matches over the whole module and over every statement span must report exactly the reference matcher's instances with equal bindings, and restructure.replace / Restructure with 4 expression goals and a multi-line statement goal (one- and two-statement patterns, overlapping windows taken greedily) must parse to the reference AST transformation (goal == pattern leaves the tree unchanged).",
             "reference matcher: structural ast equality ignoring expression context, written independently (60 lines); matches identified by interpreter positions", "3/C19"),
     "C20": ("exploration",
             "bounded-exhaustive enumeration of (module, every character offset, line-truncation variant, settings) with the symtable-validated reference binder as the oracle for visibility and definition lines",
-            "For 392 modules of 12 scoping schemas, code_assist is called at every character offset on the intact module and on the module with the rest of the current line deleted, for maxfixes {1,3} x later_locals {T,F}; no exception other than RopeError may escape, every proposal extends the typed prefix, and on judged positions the offered module identifiers equal the names visible there per the binder (two-sided on the intact module); get_definition_location and findit.find_definition at every identifier token must give a binding line (or the exact binding token) of the reference binding.",
+            "For 456 modules of 14 scoping schemas, code_assist is called at every character offset on the intact module and on the module with the rest of the current line deleted, for maxfixes {1,3} x later_locals {T,F}; no exception other than RopeError may escape, every proposal extends the typed prefix, and on judged positions the offered module identifiers equal the names visible there per the binder (two-sided on the intact module); get_definition_location and findit.find_definition at every identifier token must give a binding line (or the exact binding token) of the reference binding.",
             "binder validated against symtable per module; positions inside strings, comments, def/class/import/global lines and comprehension/lambda interiors are not judged for completeness", "3/C20"),
     "C09": ("exploration",
             "bounded-exhaustive enumeration of (project configuration, refactoring kind, every identifier offset, resources= restriction) with full snapshots of the project root and a sibling out-of-project folder before/after get_changes and do",
